@@ -246,7 +246,64 @@ def graph_as_table(ctx, gname):
     return out
 
 
+def run_world(ctx, name, spec):
+    """end-to-end: behaviours of World.tla generated by TLC (-simulate, seeded) and replayed into two
+    real Keyboards (Set 2 raw / Set 1 after the i8042 translation) with a real layout"""
+    d = os.path.join(ctx.cache, "world")
+    os.makedirs(d, exist_ok=True)
+    recs, notes, total_steps, nbeh, wall = [], [], 0, 0, time.time()
+    for layout in spec["layouts"]:
+        cfg = os.path.join(d, "MC_WorldSim_%s.cfg" % layout)
+        base = open(os.path.join(SPEC, "MC_WorldSim.cfg")).read().replace('"Uk105Key"', '"%s"' % layout)
+        open(cfg, "w").write(base)
+        meta = os.path.join(WORK, "tlc", name + "_" + layout)
+        shutil.rmtree(meta, ignore_errors=True)
+        os.makedirs(meta, exist_ok=True)
+        cmd = ["java", "-XX:+UseParallelGC", "-Xmx4g", "-Xss1g", "-cp", TLA_JAR, "tlc2.TLC", "-workers", "1",
+               "-simulate", "num=%d" % spec["num"], "-depth", "120", "-seed", str(ctx.seed),
+               "-metadir", meta, "-cleanup", "-noGenerateSpecTE", "-nowarning", "-config", cfg,
+               os.path.join(SPEC, "MC_WorldSim.tla")]
+        p = subprocess.run(cmd, cwd=meta, stdout=subprocess.PIPE, stderr=subprocess.STDOUT, text=True,
+                           timeout=spec.get("timeout", 1800))
+        if "Error:" in p.stdout and "@@B" not in p.stdout:
+            raise ToolError("World simulation failed for %s:\n%s" % (layout, p.stdout[-2000:]))
+        if re.search(r"Invariant \w+ is violated", p.stdout):
+            raise ToolError("World.tla invariant violated in simulation (%s):\n%s" % (layout, p.stdout[-3000:]))
+        seen = []
+        for line in p.stdout.splitlines():
+            m = re.match(r'^<<"@@B", (".*")>>\s*$', line)
+            if m:
+                b = json.loads(m.group(1))
+                if b not in seen:
+                    seen.append(b)
+        beh = os.path.join(d, "world_%s.s%d.ndjson" % (layout, ctx.seed))
+        open(beh, "w").write("\n".join(seen) + "\n")
+        q = subprocess.run([PKV, "replay-world", beh, layout], stdout=subprocess.PIPE, stderr=subprocess.PIPE, text=True)
+        if q.returncode != 0:
+            raise ToolError("pkv replay-world failed: %s" % q.stderr[-1500:])
+        for line in q.stdout.splitlines():
+            if line.startswith("@@M "):
+                r = json.loads(line[4:])
+                if r["kind"] == "world-set-dependence":
+                    r["prop"] = "C13"
+                else:
+                    dif = r["detail"]["differs"]
+                    r["prop"] = {"events": "C01" if r["detail"]["host"] == "host2" else "C02", "modifiers": "C04",
+                                 "character": "C03"}[dif]
+                recs.append(r)
+            elif line.startswith("@@S "):
+                n = json.loads(line[4:])
+                notes.append(n)
+                total_steps += n["steps"]
+                nbeh += n["behaviours"]
+    return {"job": name, "verdict": "mismatch" if recs else "ok", "exit": 0, "records": recs, "notes": notes,
+            "stats": {"generated": total_steps, "distinct": nbeh, "replay_calls": total_steps},
+            "wall_s": round(time.time() - wall, 2), "module": "MC_WorldSim (-simulate) -> pkv replay-world"}
+
+
 def run_pkv_job(ctx, name, spec):
+    if spec["kind"] == "world":
+        return run_world(ctx, name, spec)
     if spec["kind"] == "selfreplay":
         return run_selfreplay(ctx, name, spec)
     return run_replay(ctx, name, spec)
@@ -419,6 +476,11 @@ JOBS = {
     "selfreplay_set1_q": dict(kind="selfreplay", table="set1", graph="g_set1", arg=3, prop="C07", env={"x": "repo"}),
     "selfreplay_set2_t": dict(kind="selfreplay", table="set2", graph="g_set2", arg=4, prop="C07", env={"x": "repo"}),
     "selfreplay_set1_t": dict(kind="selfreplay", table="set1", graph="g_set1", arg=4, prop="C07", env={"x": "repo"}),
+    "mc_world": dict(kind="tlc", module="MC_World", cfg="MC_World.cfg", workers=6, cont=False),
+    "mc_world_full": dict(kind="tlc", module="MC_World", cfg="MC_World_full.cfg", workers=12, cont=False, timeout=3600),
+    "world_q": dict(kind="world", layouts=["Uk105Key", "De105Key"], num=100, env={"x": "repo"}),
+    "world_t": dict(kind="world", layouts=["Us104Key", "Uk105Key", "De105Key", "Azerty", "No105Key", "FiSe105Key",
+                                           "Colemak", "Dvorak104Key", "DVP104Key"], num=1500, env={"x": "repo"}, timeout=3600),
     "props_scan": dict(kind="tlc", module="Props_Scan", cfg="Props_Scan.cfg", workers=1,
                        env={"GRAPH1": "art:g_set1", "GRAPH2": "art:g_set2"}),
 }
@@ -437,7 +499,8 @@ PROPS = {
                 graphs=["g_frame"]),
     "C07": dict(quick=["mc_set1", "mc_set2", "props_scan", "selfreplay_set1_q", "selfreplay_set2_q"],
                 thorough=["mc_set1", "mc_set2", "props_scan", "selfreplay_set1_t", "selfreplay_set2_t"], graphs=["g_set1", "g_set2"]),
-    "C13": dict(quick=["props_scan"], graphs=["g_set1", "g_set2"]),
+    "C13": dict(quick=["props_scan", "mc_world", "world_q"], thorough=["props_scan", "mc_world_full", "world_t"],
+                graphs=["g_set1", "g_set2"]),
     "C19": dict(quick=["mc_set1", "mc_set2", "props_scan"], graphs=["g_set1", "g_set2"]),
     "C18": dict(quick=["mc_keyboard_set2", "conf_kb2_mixedq", "conf_kb1_mixedq", "trace_kb2", "trace_kb1"],
                 thorough=["mc_keyboard_set2", "mc_keyboard_set1", "mc_keyboard_set2_full", "conf_kb2_bits", "conf_kb1_bits",
@@ -446,7 +509,7 @@ PROPS = {
                 traces=["tr_noise_kb2", "tr_noise_kb1"],
                 graphs_thorough=["g_kb2_bits", "g_kb1_bits", "g_kb2_mixedq", "g_kb1_mixedq", "g_kb2_mixed"],
                 traces_thorough=["tr_noise_kb2_long", "tr_noise_kb1_long"]),
-    "C03": dict(quick=["conf_layouts"], tables=["t_layouts"]),
+    "C03": dict(quick=["conf_layouts", "world_q"], thorough=["conf_layouts", "world_t"], tables=["t_layouts"]),
     "C09": dict(quick=["conf_layouts"], tables=["t_layouts"]),
     "C10": dict(quick=["conf_layouts"], tables=["t_layouts"]),
     "C11": dict(quick=["conf_layouts", "conf_preds"], tables=["t_layouts", "t_preds"]),
@@ -489,6 +552,9 @@ def canon_key(rec):
         return "trace-spec comp=%s ctx=%s input=%s observed=%s query=%s" % (
             rec.get("comp"), rec.get("ctx"), json.dumps(rec.get("input"), separators=(",", ":")),
             json.dumps(rec.get("observed"), separators=(",", ":")), json.dumps(rec.get("observed_query"), separators=(",", ":")))
+    if k in ("world-set-dependence", "world-host"):
+        return "%s layout=%s s2=%s detail=%s" % (k, rec.get("layout"), rec.get("s2"),
+                                                   hashlib.sha256(json.dumps(rec.get("detail"), sort_keys=True).encode()).hexdigest()[:10])
     if k == "self-replay":
         return "self-replay comp=%s state=%s input=%s observed=%s" % (
             rec.get("comp"), rec.get("state"), json.dumps(rec.get("input"), separators=(",", ":")),
@@ -583,6 +649,10 @@ def write_replay(ctx, pid, n, rec, jobname):
                 doc["inputs"].append(inp)
         except Exception as e:  # replay stays usable as a record even without inputs
             doc["note"] = "could not expand access sequence: %s" % e
+    elif str(rec.get("kind", "")).startswith("world-"):
+        doc["component"] = "kbl2:%s" % rec.get("layout")
+        doc["note"] = "end-to-end step: Set 2 bytes s2 (host 2) / translated Set 1 bytes s1 (host 1); behaviour file in work/cache/<hash>/world/"
+        doc["inputs"] = [["byte", b] for b in rec.get("s2", [])]
     elif "stream" in rec:
         doc["component"] = comp
         doc["inputs"] = rec["stream"]
